@@ -19,6 +19,8 @@ import IbicusModel.Lemmas.C02Shift
 import IbicusModel.Lemmas.IsimipModel
 import IbicusModel.Lemmas.Lift
 
+set_option linter.unusedSimpArgs false
+
 namespace Lemmas.C02
 open Model.Stats Model.Family Model.Isimip Lemmas.Stats Lemmas.StatsAffine Lemmas.IsimipModel
 
@@ -357,6 +359,25 @@ theorem valuesBetween_shift (cfg : Cfg) (hU : Unbounded cfg) (c : Rat) (x : List
     valuesBetween cfg (x.map (fun v => v + c)) = (valuesBetween cfg x).map (fun v => v + c) := by
   rw [valuesBetween_of_infinite cfg hU.lt hU.ut, valuesBetween_of_infinite cfg hU.lt hU.ut]
 
+theorem setBound_inf_ok {xs m1 : List Rat} {m : List Bool} {b : ExtRat} (hb : b = .negInf ∨ b = .posInf)
+    (h : setBound xs m b = .ok m1) : m1 = xs := by
+  unfold setBound at h
+  split_ifs at h
+  · rcases hb with rfl | rfl <;> simp [ExtRat.toRat, Except.map] at h
+  · exact (Except.ok.inj h).symm
+
+theorem fillWhere_length {α} : ∀ (xs : List α) (m : List Bool) (vs : List α),
+    (Model.IsimipFreq.fillWhere xs m vs).length = xs.length
+  | [], _, _ => by simp [Model.IsimipFreq.fillWhere]
+  | x :: xs, [], _ => by simp [Model.IsimipFreq.fillWhere]
+  | x :: xs, false :: ms, vs => by simp [Model.IsimipFreq.fillWhere, fillWhere_length xs ms vs]
+  | x :: xs, true :: ms, [] => by simp [Model.IsimipFreq.fillWhere, fillWhere_length xs ms []]
+  | x :: xs, true :: ms, v :: vs => by simp [Model.IsimipFreq.fillWhere, fillWhere_length xs ms vs]
+
+theorem takeIdx_argsort_length (F : List Rat) : (takeIdx F (argsort F)).length = F.length := by
+  unfold takeIdx
+  rw [List.length_map, argsort_length]
+
 /-- **step 6** (unbounded configuration): pseudo-future observations and `cm_future` shifted together -/
 theorem step6_shift (cfg : Cfg) (hU : Unbounded cfg) (fam : IsiFamily) (hL : IsiShiftLaws fam) (o : Oracles)
     (c : Rat) (obs oF H F : List Rat) :
@@ -375,6 +396,9 @@ theorem step6_shift (cfg : Cfg) (hU : Unbounded cfg) (fam : IsiFamily) (hL : Isi
         (takeIdx F (argsort F)).length) ExtRat.posInf with
     | error e => rfl
     | ok m2 =>
+      have hm2 : m2.length = F.length := by
+        rw [setBound_inf_ok (Or.inr rfl) hb2, setBound_inf_ok (Or.inl rfl) hb1, takeIdx_argsort_length]
+      have hvalid : ∀ i ∈ rankOf F, i < m2.length := fun i hi => hm2 ▸ rankOf_valid F i hi
       simp only [Except.map]
       split_ifs with hN hOF
       · have hne : valuesBetween cfg (sortQ oF) ≠ [] := by
@@ -387,11 +411,51 @@ theorem step6_shift (cfg : Cfg) (hU : Unbounded cfg) (fam : IsiFamily) (hL : Isi
           simp only [Except.map, pure, Except.pure, fillWhere_map]
           congr 1
           apply takeIdx_shift
-          trace_state
-          sorry
-      · trace_state
-        sorry
-      · trace_state
-        sorry
+          intro i hi
+          rw [fillWhere_length]
+          exact hvalid i hi
+      · simp only [pure, Except.pure]
+        congr 1
+        exact takeIdx_shift c m2 _ hvalid
+      · simp only [pure, Except.pure]
+        congr 1
+        exact takeIdx_shift c m2 _ hvalid
+
+/-! ### `_apply_on_window` (steps 3–7) -/
+
+/-- **ISIMIP additive, one window**: `_apply_on_window(obs, H, F + c) = _apply_on_window(obs, H, F) + c` for the
+    unbounded additive configuration, parametric or non-parametric, with or without detrending, any `Oracles`
+    (the same in both runs: oracle laws "p-value / KS decision invariant under a common shift") and any draws
+    (none are consumed). -/
+theorem applyOnWindow_shift (cfg : Cfg) (hU : Unbounded cfg) (ht : cfg.trendMethod = .additive)
+    (fam : IsiFamily) (hL : IsiShiftLaws fam) (o : Oracles) (d : Draws) (c : Rat)
+    (obs H F : List Rat) (yO yH yF : List Int)
+    (hO : obs ≠ []) (hH : H ≠ []) (hF : F ≠ [])
+    (hlO : obs.length = yO.length) (hlH : H.length = yH.length) (hlF : F.length = yF.length) :
+    applyOnWindow cfg fam o d obs H (F.map (fun v => v + c)) yO yH yF =
+      (applyOnWindow cfg fam o d obs H F yO yH yF).map (List.map (fun v => v + c)) := by
+  rw [applyOnWindow_eq, applyOnWindow_eq, step3_shift cfg o c obs H F yO yH yF hlF]
+  have hs4 : ∀ a b e : List Rat, step4 cfg d a b e = .ok (a, b, e) := fun a b e =>
+    step4_of_no_bound_threshold_pair cfg d (by simp [hU.hasLowerBound]) (by simp [hU.hasUpperBound]) a b e
+  obtain ⟨l1, l2, l3⟩ := step3_lengths cfg o obs H F yO yH yF hlO hlH hlF
+  have ne_of_len : ∀ {a b : List Rat}, a.length = b.length → b ≠ [] → a ≠ [] := by
+    intro a b h hb ha
+    rw [ha] at h
+    exact hb (List.length_eq_zero_iff.mp h.symm)
+  have n1 := ne_of_len l1 hO
+  have n2 := ne_of_len l2 hH
+  have n3 := ne_of_len l3 hF
+  simp only [hs4, Except.bind]
+  rw [step5_shift cfg hU o c _ _ _ ht n1 n2 n3]
+  cases step5 cfg o (step3 cfg o obs H F yO yH yF).1 (step3 cfg o obs H F yO yH yF).2.1
+      (step3 cfg o obs H F yO yH yF).2.2.1 with
+  | error e => rfl
+  | ok oF =>
+    simp only [Except.map, Except.bind]
+    rw [step6_shift cfg hU fam hL o c]
+    cases step6 cfg fam o (step3 cfg o obs H F yO yH yF).1 oF (step3 cfg o obs H F yO yH yF).2.1
+        (step3 cfg o obs H F yO yH yF).2.2.1 with
+    | error e => rfl
+    | ok r => simp only [Except.map, Except.bind, step7_shift]
 
 end Lemmas.C02
